@@ -92,12 +92,12 @@ def register(reg):
                  names={'Scanner': ('class', 'Scanner')},
                  replay=_replay)
 
-    reg.cls('PatternRE', target='lark.lexer:PatternRE', fields={'_width': 'opt[tuple[int,int]]'})
+    reg.cls('PatternRE', target='lark.lexer:PatternRE', fields={'_width': 'opt[tuple[int,int]]'}, consts={'value': 'str', 'flags': 'any'})
     reg.specfun('REGEXP', [('p', 'PatternRE')], 'str', doc='to_regexp(): value wrapped in its flags')
     reg.specfun('WIDTHOF', [('r', 'str')], 'tuple[int,int]')
     reg.contract('lark.lexer:PatternRE.to_regexp', assumed=True, kind='method', pure=True, params={'self': 'PatternRE'}, returns='str', ensures=['result == REGEXP(self)'])
     reg.contract('lark.utils:get_regexp_width', assumed=True, pure=True, params={'expr': 'str'}, returns='tuple[int,int]', ensures=['result == WIDTHOF(expr)'])
-    reg.contract('lark.lexer:PatternRE._get_width', serves=S, kind='method',
+    reg.contract('lark.lexer:PatternRE._get_width', serves=S + ['C07'], kind='method',
                  params={'self': 'PatternRE'}, returns='tuple[int,int]', modifies=['self'],
                  requires=['implies(self._width is not None, val(self._width) == WIDTHOF(REGEXP(self)))'],
                  # the cached width is that of THIS pattern's regexp (value and flags) - whatever other patterns or instances exist
